@@ -1,11 +1,13 @@
 import OdxVerif.Proofs.SimAtomic
+import OdxVerif.Proofs.SimCompu
 /-! `Sim` for the whole composite codec model, by induction on the fuel of the mutually recursive functions. -/
 namespace OdxVerif.Codec
 open OdxVerif.OdxM OdxVerif.Bits
 
 macro "sim3" : tactic => `(tactic| repeat (first
     | exact sim_emplaceAtomic _ _ _ _ _ _ | exact sim_extractAtomic _ _ _ _ | exact sim_encodeDct _ _ | exact sim_decodeDct _
-    | exact sim_emplaceBytes _ _
+    | exact sim_emplaceBytes _ _ | exact sim_keyValidCheck _ _ | exact sim_keyReprCheck _ _
+    | exact sim_dopP2I _ _ | exact sim_dopI2P _ _ | exact sim_methodP2I _ _ | exact sim_methodI2P _ _ _
     | sim_step | split | dsimp only))
 
 theorem sim_encodeKeyPlaceholder (name : String) (bytePos bitPos : Option Nat) (dop : Dop) (pv : Option PVal) :
@@ -40,6 +42,7 @@ theorem sim_encode_all (fuel : Nat) :
         repeat (first
           | exact ihDop _ _ | exact ihItems _ _ _ | exact ihStatic _ _ _ _ | exact ihComp _ _ | exact ihParam _ _
           | exact sim_encodeDct _ _ | exact sim_emplaceBytes _ _
+          | exact sim_dopP2I _ _ | exact sim_methodP2I _ _
           | sim_step | split | dsimp only
           | (simp only [Nat.succ_eq_add_one, Nat.add_right_cancel_iff] at *; subst_vars))
     · intro item eop xs
@@ -69,7 +72,7 @@ theorem sim_encode_all (fuel : Nat) :
     · intro ps
       unfold encodeKeyValues
       repeat (first
-          | exact ihDop _ _ | exact ihKeys _
+          | exact ihDop _ _ | exact ihKeys _ | exact sim_keyReprCheck _ _
           | sim_step | split | dsimp only
           | (simp only [Nat.succ_eq_add_one, Nat.add_right_cancel_iff] at *; subst_vars))
     · intro ps pv
@@ -92,6 +95,7 @@ def Dop.markerFree : Dop → Bool
   | .mux _ _ _ sd cases dflt => sd.markerFree && casesMarkerFree cases &&
       (match dflt with | some (_, some d) => d.markerFree | _ => true)
   | .unsupported => true
+  | .dtc .. => true
 def casesMarkerFree : List MuxCaseD → Bool
   | [] => true
   | .mk _ _ _ st :: cs => (match st with | some d => d.markerFree | none => true) && casesMarkerFree cs
@@ -189,6 +193,16 @@ theorem sim_decode_all (fuel : Nat) :
           | exact ihParam _ ((markerFree_valueParam _ _ _ _ _).trans (by simp_all))
           | sim_step | split | dsimp only
           | (simp only [Nat.succ_eq_add_one, Nat.add_right_cancel_iff] at *; subst_vars))
+      | simple dct phys cm =>
+        unfold decodeDop
+        repeat (first
+          | exact sim_decodeDct _ | exact sim_dopI2P _ _
+          | sim_step | split | dsimp only)
+      | dtc dct phys cm dtcs =>
+        unfold decodeDop
+        repeat (first
+          | exact sim_decodeDct _ | exact sim_methodI2P _ _ _
+          | sim_step | split | dsimp only)
       | _ =>
         unfold decodeDop <;> simp only [Dop.markerFree, Bool.and_eq_true, Bool.false_eq_true] at hd <;>
         repeat (first
